@@ -50,7 +50,15 @@ impl Posting {
 pub fn txn_sum(posts: &Posts) -> Result<Decimal, tackler::Error> {
     posts
         .iter()
-        .try_fold(Decimal::ZERO, |sum, p| sum.checked_add(p.txn_amount))
+        .try_fold(Decimal::ZERO, |sum, p| {
+            let s = sum.checked_add(p.txn_amount)?;
+            // A sum that does not fit at the scale of its operands is rounded by the
+            // decimal library (its scale shrinks): that is not the exact sum any more.
+            let exact = sum.is_zero()
+                || p.txn_amount.is_zero()
+                || s.scale() >= std::cmp::max(sum.scale(), p.txn_amount.scale());
+            exact.then_some(s)
+        })
         .ok_or_else(|| "Sum of postings is out of range (decimal overflow)".into())
 }
 
